@@ -934,6 +934,9 @@ func vGenSources(rc *runCtx, root string, maxTop int, allowDirs bool, maxSize in
 
 var vProgressPct = regexp.MustCompile(`\d+%`)
 
+// a progress line ends with the percentage, optionally followed by up to three " | field"s
+var vProgressTail = regexp.MustCompile(`\d+%( \| [^|]{1,24}){0,3}$`)
+
 // progressOverflow looks at every progress line the client wrote to the terminal from offset `from` on: none
 // may be wider than the narrowest width in force - the server's tmux pane when it sits in one (its width is 77
 // in this world), else the terminal (cols). Returns "" when fine.
@@ -963,10 +966,16 @@ func (x *xferWorld) progressOverflow(from int, cols int32) string {
 				text = f[2]
 			}
 			text = vTmuxUnescape(strings.TrimSuffix(text, "\r\n"))
-		} else if !strings.HasPrefix(text, "\r") && !strings.Contains(text, "D") {
+		} else if !strings.HasPrefix(text, "\r") && !strings.HasPrefix(text, "\x1b[") {
 			continue // not a progress redraw (some other output that happens to contain a percentage)
 		}
+		if strings.ContainsAny(text, "\n") {
+			continue // a progress redraw is one line
+		}
 		vis := vCtlSeq.ReplaceAllString(text, "")
+		if !vProgressTail.MatchString(vis) {
+			continue
+		}
 		if w := runewidth.StringWidth(vis); w > limit {
 			return fmt.Sprintf("a progress line of display width %d was written while the narrowest width on the path was %d (terminal %d, server tmux %q): %q", w, limit, cols, x.o.srvTmux, vClip(vis, 140))
 		}
